@@ -1,12 +1,205 @@
-//! C06 — ops evaluated on the real code and the generator of their inputs.
-#![allow(unused_imports, dead_code, clippy::all)]
+//! C06 — `Dfs`, `DfsDist`, `DfsPred`, `DfsPred::predecessors` on the real code.
+//!
+//!   dfs_iter <desc> <sources> [family]  =>  <Dfs items>
+//!   dfs_dist <desc> <sources> [family]  =>  <DfsDist items>                    `[v depth]`
+//!   dfs_pred <desc> <sources> [family]  =>  <DfsPred items> <predecessors()>   `[pred v]`, `none | id`
+//!
+//! Each output is a list, or the atom `panic` when that call panicked. Items are printed exactly
+//! as yielded. The optional third argument only labels the generator family (it ends up in the
+//! evidence histogram); the real code never sees it.
+#![allow(clippy::all)]
 
 use crate::graphs::{self, Desc};
 use crate::rng::Rng;
 use crate::value::V;
+use crate::with_digraph;
+use graaf::{Dfs, DfsDist, DfsPred};
+use std::panic::{catch_unwind, AssertUnwindSafe};
 
-pub fn eval(_op: &str, _args: &[V]) -> Option<Vec<V>> {
-    None
+fn guarded(f: impl FnOnce() -> V) -> V {
+    catch_unwind(AssertUnwindSafe(f)).unwrap_or_else(|_| V::atom("panic"))
 }
 
-pub fn gen(_rng: &mut Rng, _thorough: bool, _emit: &mut dyn FnMut(String)) {}
+pub fn eval(op: &str, args: &[V]) -> Option<Vec<V>> {
+    if !matches!(op, "dfs_iter" | "dfs_dist" | "dfs_pred") {
+        return None;
+    }
+    if args.len() != 2 && args.len() != 3 {
+        return None;
+    }
+    let desc = Desc::parse(&args[0])?;
+    let sources = args[1].as_usizes()?;
+    Some(with_digraph!(&desc, d => {
+        match op {
+            "dfs_iter" => vec![guarded(|| {
+                V::us(Dfs::new(&d, sources.iter().copied()).collect::<Vec<_>>())
+            })],
+            "dfs_dist" => vec![guarded(|| {
+                V::pairs(DfsDist::new(&d, sources.iter().copied()).collect::<Vec<_>>())
+            })],
+            _ => {
+                let items = guarded(|| {
+                    let mut items = vec![];
+                    for (p, v) in DfsPred::new(&d, sources.iter().copied()) {
+                        items.push(V::L(vec![V::opt_u(p), V::u(v)]));
+                    }
+                    V::L(items)
+                });
+                let tree = guarded(|| {
+                    let tree = DfsPred::new(&d, sources.iter().copied()).predecessors();
+                    V::L(tree.into_iter().map(V::opt_u).collect())
+                });
+                vec![items, tree]
+            }
+        }
+    }))
+}
+
+const OPS: [&str; 3] = ["dfs_iter", "dfs_dist", "dfs_pred"];
+
+/// One input, all three iterators.
+fn show_all(desc: &Desc, sources: &[usize], fam: &str, emit: &mut dyn FnMut(String)) {
+    for op in OPS {
+        emit(show(op, desc, sources, fam));
+    }
+}
+
+fn show(op: &str, desc: &Desc, sources: &[usize], fam: &str) -> String {
+    // `group:name`; the driver tags the group only (the name is for people reading a replay)
+    let group = match fam {
+        "exhaustive" => "exhaustive",
+        "path-chords" | "out-tree" | "tree-cross" | "fan-chain" => "own",
+        _ => "shared",
+    };
+    format!("{op} {} {} {group}:{fam}", desc.to_v(), V::us(sources.iter().copied()))
+}
+
+fn mk(repr: &str, n: usize, arcs: Vec<(usize, usize)>, rng: &mut Rng) -> Desc {
+    let k = arcs.len();
+    let weights = if repr == "wi" {
+        (0..k).map(|_| i128::from(rng.range(-5, 9))).collect()
+    } else if repr == "wu" {
+        (0..k).map(|_| i128::from(rng.range(0, 9))).collect()
+    } else {
+        vec![1; k]
+    };
+    Desc { repr: repr.to_string(), verts: (0..n).collect(), arcs, weights }
+}
+
+const REPRS: [&str; 6] = ["al", "am", "mx", "el", "wu", "wi"];
+
+/// Own families: shapes on which a vertex is pushed by several vertices of the search path,
+/// so that stale entries lie at different depths of the stack.
+fn own_family(rng: &mut Rng, n: usize) -> (&'static str, Vec<(usize, usize)>) {
+    let mut set = std::collections::BTreeSet::new();
+    match rng.below(4) {
+        0 => {
+            // a path 0 -> 1 -> ... with random chords: forward chords create stale entries,
+            // backward chords are harmless
+            for u in 0..n.saturating_sub(1) {
+                let _ = set.insert((u, u + 1));
+            }
+            for _ in 0..n {
+                let (u, v) = (rng.below(n), rng.below(n));
+                if u != v {
+                    let _ = set.insert((u, v));
+                }
+            }
+            ("path-chords", set.into_iter().collect())
+        }
+        1 => {
+            // out-tree (every vertex has one parent with a smaller id): never a stale entry
+            for v in 1..n {
+                let _ = set.insert((rng.below(v), v));
+            }
+            ("out-tree", set.into_iter().collect())
+        }
+        2 => {
+            // out-tree plus a few cross arcs
+            for v in 1..n {
+                let _ = set.insert((rng.below(v), v));
+            }
+            for _ in 0..(1 + n / 4) {
+                let (u, v) = (rng.below(n), rng.below(n));
+                if u != v {
+                    let _ = set.insert((u, v));
+                }
+            }
+            ("tree-cross", set.into_iter().collect())
+        }
+        _ => {
+            // fan: hub 0 -> everybody, plus a chain among the leaves in DEscending order; the
+            // search goes 0, n-1, n-2, … and leaves one stale entry per leaf below
+            for v in 1..n {
+                let _ = set.insert((0, v));
+            }
+            for v in 2..n {
+                if rng.chance(2, 3) {
+                    let _ = set.insert((v, v - 1));
+                }
+            }
+            ("fan-chain", set.into_iter().collect())
+        }
+    }
+}
+
+pub fn gen(rng: &mut Rng, thorough: bool, emit: &mut dyn FnMut(String)) {
+    // (1) exhaustive small scope: every digraph on <= 4 vertices x every subset of sources
+    //     (incl. the empty one) in ascending, descending and one rotated order, representation
+    //     rotating. Quick tier: only a sample of the 4-vertex cases.
+    let mut rot = 0usize;
+    let max_small = 4;
+    for n in 1usize..=max_small {
+        let pairs: Vec<(usize, usize)> =
+            (0..n).flat_map(|u| (0..n).filter(move |&v| v != u).map(move |v| (u, v))).collect();
+        for code in 0u32..(1u32 << pairs.len()) {
+            let arcs: Vec<(usize, usize)> =
+                pairs.iter().enumerate().filter(|(i, _)| code >> i & 1 == 1).map(|(_, &a)| a).collect();
+            for sm in 0u32..(1u32 << n) {
+                let mut src: Vec<usize> = (0..n).filter(|s| sm >> s & 1 == 1).collect();
+                // sources ascending, descending, and (for >= 3) one rotation
+                let mut variants = vec![src.clone()];
+                if src.len() >= 2 {
+                    src.reverse();
+                    variants.push(src.clone());
+                }
+                if src.len() >= 3 {
+                    src.rotate_left(1);
+                    variants.push(src.clone());
+                }
+                for s in variants {
+                    // on 4 vertices all 4096 x 32 source lists are ~131k cases: thorough runs
+                    // them all, quick a 1/20 sample
+                    if n == 4 && !thorough && !rng.chance(1, 20) {
+                        continue;
+                    }
+                    let repr = REPRS[rot % REPRS.len()];
+                    rot += 1;
+                    let d = mk(repr, n, arcs.clone(), rng);
+                    show_all(&d, &s, "exhaustive", emit);
+                }
+            }
+        }
+    }
+    // (2) random: shared families + own families, all representations
+    let n_random = if thorough { 30_000 } else { 4_500 };
+    for i in 0..n_random {
+        let repr = REPRS[i % REPRS.len()];
+        let n = graphs::gen_order(rng, 130);
+        let (fam, arcs) = if rng.chance(1, 3) { own_family(rng, n) } else { graphs::gen_arcs(rng, n) };
+        let mut arcs = arcs;
+        rng.shuffle(&mut arcs);
+        let d = mk(repr, n, arcs, rng);
+        let s = graphs::gen_sources(rng, n);
+        show_all(&d, &s, fam, emit);
+        // same digraph, another representation and all-vertices-as-sources now and then
+        if rng.chance(1, 8) {
+            let d2 = d.with_repr(REPRS[(i + 1 + rng.below(5)) % REPRS.len()]);
+            let d2 = mk(&d2.repr, n, d2.arcs.clone(), rng);
+            let mut all: Vec<usize> = (0..n).collect();
+            rng.shuffle(&mut all);
+            all.truncate(1 + rng.below(n.min(6)));
+            show_all(&d2, &all, fam, emit);
+        }
+    }
+}
